@@ -555,7 +555,7 @@ def run(ctx):
     ctx.flag("dfs_depth", depth)
     ctx.sample({"dfs_first_actions": firsts, "depth": depth, "states": n, "alphabet": [a[0] for a in ACTIONS]})
     rng = ctx.rng
-    for k in range(ctx.pick(25, 300)):
+    for k in range(ctx.pick(25, 1500)):
         if ctx.out_of_time():
             break
         path = random_history(ctx, rng, 80)
